@@ -380,6 +380,10 @@ def analyse(src: Source) -> List[Report]:
     check_rng(prog, rep)
     check_globals(prog, rep)
     check_dumping_pure(prog, rep)
+    # scheduler contents including the validity of trashed entries survive the pickle (rules shared with C06)
+    from ..cfront import CUnit
+    from .c06 import HEAP_C, check_heap_scheduler
+    check_heap_scheduler(src, rep, CUnit(src, HEAP_C))
     cfgs = load_all(prog)
     cache: Dict[str, HandlerFacts] = {}
     n_dump = 0
